@@ -421,10 +421,18 @@ class ExprMixin:
             return self.classattr_item(st, c, k, node)
         cv = ops.deref(st, c)
         if isinstance(cv, VOpt):
-            cv = cv.get()
+            t, f = self.split(st, z3.Not(cv.is_none()))
+            out = []
+            if f:
+                out.append((f, Exc("TypeError", self.line(node), "'NoneType' object is not subscriptable")))
+            if t:
+                out.extend(self.get_item(t, cv.get(), k, node))
+            return out
         if isinstance(k, _SliceV):
             return self.get_slice(st, cv, k, node)
         k = ops.deref(st, k)
+        if isinstance(cv, VTotalMap):
+            return [(st, cv.get(ops.coerce(st, k, cv.key)))]
         if isinstance(cv, VMap) and cv.default is not None:
             kk = ops.coerce(st, k, cv.key)
             val = cv.val.wrap(z3.If(cv.has(kk), cv.get(kk).t, cv.default.t))
